@@ -230,8 +230,11 @@ func (c *Client) handlePacket(pktx pkts.Packet) error {
 		transactionx, _ := c.brokerTransactions.Get(pkt.MessageID())
 		transaction, ok := transactionx.(*brokerPublishQOS2Transaction)
 		if !ok {
-			c.log.Error("Unexpected transaction type %T for packet: %v", transactionx, pkt)
-			return nil
+			// A retransmitted PUBREL of an exchange we have finished already (our
+			// PUBCOMP got lost): the message was delivered, just acknowledge again.
+			pubcomp := pkts1.NewPubcomp()
+			pubcomp.CopyMessageID(pkt)
+			return c.send(pubcomp)
 		}
 		transaction.Pubrel(pkt)
 		return nil
